@@ -49,7 +49,7 @@ var prefixes = []string{"chunk-", "discover-", "sourceChunk-", "sourcePyramid-"}
 func histories(t *testing.T, shard int) {
 	run := obs.Start(t, "C17")
 	defer run.Done()
-	run.Rule("histories of 24 ops on a restartable mini node with the real chunkinfo: uploads, partial retrievals of data chunks in random order from a source node, local reads under the file context of data chunks, intermediate chunks, manifest chunks and the root itself, full downloads through the HTTP path, restarts (new node on the same key-value content and state store), deletions; after every op, for every file, every set bit of the node's own availability vector (GetChunkInfoServerOverlays and GetFileList) must correspond to a locally stored data chunk, 'all bits set' must mean all data chunks stored, and after a delete no getter and no state-store key may mention the root; distinct = (op kinds, #files, repeated-chunk file?, restarts, deletes)",
+	run.Rule("histories of 24 ops on a restartable mini node with the real chunkinfo: uploads, partial retrievals of data chunks in random order from a source node, local reads under the file context of data chunks, intermediate chunks, manifest chunks and the root itself, full downloads through the HTTP path, restarts (new node on the same key-value content and state store), deletions, and - in every second history, which runs with a cache of 10..21 chunks - collection runs that evict cached files; after every op, for every file, every set bit of the node's own availability vector (GetChunkInfoServerOverlays and GetFileList) must correspond to a locally stored data chunk, 'all bits set' must mean all data chunks stored, and after a delete no getter and no state-store key may mention the root; distinct = (op kinds, #files, repeated-chunk file?, restarts, deletes)",
 		"bit i of the vector stands for the i-th distinct data chunk of the file in file order (the order both ends derive from the pyramid)")
 	n := run.N(120, 1200)
 	for i := shard; i < n; i += 4 {
@@ -58,7 +58,12 @@ func histories(t *testing.T, shard int) {
 			continue
 		}
 		rng := c.Rand()
-		w, err := fsim.NewRestartableWorld(1000000)
+		// every second history runs with a small cache, so that collection runs evict files
+		capacity := uint64(1000000)
+		if i%2 == 1 {
+			capacity = uint64(10 + rng.Intn(12))
+		}
+		w, err := fsim.NewRestartableWorld(capacity)
 		if err != nil {
 			t.Fatal(err)
 		}
@@ -210,7 +215,29 @@ func histories(t *testing.T, shard int) {
 			fi := rng.Intn(len(files))
 			f := files[fi]
 			var kind string
-			switch x := rng.Intn(20); {
+			x := rng.Intn(20)
+			if capacity < 1000 {
+				if s0, _ := fsim.Dump(w.N); s0.GCSize > s0.Target && rng.Intn(3) > 0 {
+					x = 20
+				}
+			}
+			switch {
+			case x == 20:
+				// cache eviction: whatever the run removes must no longer be advertised
+				kind = "collect"
+				before, _ := fsim.Dump(w.N)
+				rounds, done, _, _ := fsim.Collect(w.N, 12)
+				after, _ := fsim.Dump(w.N)
+				gone := 0
+				for ch := range before.Present {
+					if !after.Present[ch] {
+						gone++
+					}
+				}
+				hist = append(hist, opRec{Op: kind, File: -1, Note: fmt.Sprintf("rounds=%d done=%v chunks_evicted=%d", rounds, done, gone)})
+				if gone > 0 {
+					run.Stat("collections_that_evicted", 1)
+				}
 			case x < 3:
 				kind = "upload"
 				hist = append(hist, opRec{Op: kind, File: fi})
